@@ -138,6 +138,27 @@ fn reqstreams() -> Vec<Vec<u8>> {
          b"M /1 HTTP/1.1\r\n\r\n M /2 HTTP/1.1\r\n\r\n".to_vec(),
          b"M /1 HTTP/1.1\r\n\r\nM /2 HTTP/1.1\r\n\r\nM /3 HTT".to_vec()]
 }
+/// a long field value with one non-ASCII byte at offset `k` (a 1 KiB buffer, one read): the head is complete, so it is consumed
+/// and refused as malformed -- whatever the offset, never a panic of the connection task
+fn check_longvalue(k: usize, tail: usize) -> Option<String> {
+    let mut t = b"M / HTTP/1.1\r\nx-note: ".to_vec();
+    t.extend(std::iter::repeat(b'a').take(k)); t.push(0xE9); t.extend(std::iter::repeat(b'b').take(tail));
+    t.extend_from_slice(b"\r\n\r\nNEXT");
+    let desc = format!("longvalue k={k} tail={tail}");
+    let total = t.len();
+    let r = std::panic::catch_unwind(move || {
+        let mut buf: FixedBuf<1024> = FixedBuf::new();
+        let mut rd = ScriptReader::new(vec![Step::Data(t), Step::Eof]);
+        let res = poll_n(read_http_head(&mut buf, &mut rd), 8);
+        (res.map(|r| r.is_err()), buf.len())
+    });
+    match r {
+        Err(_) => Some(format!("{desc} expected=refused as malformed actual=panic")),
+        Ok((Some(true), left)) if left == 4 => None,
+        Ok((Some(true), left)) => Some(format!("{desc} expected=the head consumed ({} bytes left) actual={left} of {total} bytes left", 4)),
+        Ok((other, _)) => Some(format!("{desc} expected=refused as malformed actual={other:?}")),
+    }
+}
 fn hex(b: &[u8]) -> String { b.iter().map(|x| format!("{x:02x}")).collect() }
 fn unhex(s: &str) -> Vec<u8> { (0..s.len() / 2).map(|i| u8::from_str_radix(&s[2 * i..2 * i + 2], 16).unwrap()).collect() }
 
@@ -146,6 +167,10 @@ fn main() {
     let args: Vec<String> = std::env::args().collect();
     if args.len() >= 3 && args[1] == "replay" {
         let w = args[2..].join(" ");
+        if w.starts_with("longvalue") {
+            let g = |k: &str| -> usize { w.split(&format!("{k}=")).nth(1).unwrap().split(' ').next().unwrap().parse().unwrap() };
+            match check_longvalue(g("k"), g("tail")) { Some(m) => { println!("WITNESS {m}"); std::process::exit(1) } None => { println!("OK witness no longer fails"); std::process::exit(0) } }
+        }
         if w.starts_with("partialsecond") {
             let cut: usize = w.split("cuts=[").nth(1).unwrap().split(']').next().unwrap().trim().parse().unwrap_or(0);
             match check_partial_second(cut) { Some(m) => { println!("WITNESS {m}"); std::process::exit(1) } None => { println!("OK witness no longer fails"); std::process::exit(0) } }
@@ -239,6 +264,9 @@ fn main() {
         let all: Vec<usize> = (1..t.len()).collect();
         n += 1; if let Some(m) = check_reqstream(&t, &all) { if found.len() < 5 { found.push(m) } }
     }
+    for k in [0usize, 1, 31, 32, 62, 63, 64, 98, 99, 100, 101, 126, 127, 128, 199, 200, 254, 255, 256, 300, 511, 512] { for tail in [0usize, 1, 50] {
+        n += 1; if let Some(m) = check_longvalue(k, tail) { if found.len() < 5 { found.push(m) } }
+    } }
     println!("EVALUATED {n}");
     for f in &found { println!("WITNESS {f}"); }
     std::process::exit(if found.is_empty() { 0 } else { 1 });
